@@ -67,6 +67,36 @@ add("C06",
     "trusts vlib/refcal.py and vlib/forms.py; the system zone is substituted "
     "through metomi.isodatetime.timezone.time like the repo's own conftest")
 
+add("C05",
+    "Hypothesis-generated (point, nominal duration, route) cases; oracle = the "
+    "statement's clamping semantics executed on the reference calendar",
+    "Month/year arithmetic (p+d, d+p, p-d, add_months) from starts biased to "
+    "month ends, 29 Feb, day 365/366 and week 52/53 is compared field by field"
+    " with an independent step-by-step model (exact part, then single clamping"
+    " month steps, then the representation-specific year clamp); add_months(n)"
+    " must equal n single steps. Exploration only.",
+    "trusts vlib/refcal.py; 24:00 starts excluded (undefined by the statement)")
+add("C10",
+    "Hypothesis-generated durations and duration texts; round-trip oracle + "
+    "own encoder/expected components + alternative-vs-designator differential",
+    "parse(str(d)) == d with equal hash and str a fixpoint for single-signed "
+    "durations incl. arbitrary finite floats; designator strings rendered by "
+    "our encoder decode to exactly the spelled components; the date-time-like "
+    "spelling (basic/extended, calendar/ordinal) equals its designator "
+    "spelling. Exploration only.",
+    "decimals in the alternative spelling are compared within 1 microsecond "
+    "(the two parsers build the float differently); see DESIGN section 5")
+add("C11",
+    "Hypothesis-generated duration pairs/triples and multipliers; algebraic "
+    "laws + exact-rational length oracle",
+    "Commutativity, associativity, identity, inverse, n*d == n-fold sum, "
+    "a-b == a+(-1*b) are checked on components against exact rational "
+    "arithmetic; equality/hash/ordering of exact durations against total "
+    "length; nominal equality and the rough-length ordering per calendar "
+    "mode. Pairs include re-spellings of one length in other units and "
+    "one-component variations. Exploration only.",
+    "integer components exact; decimal components within 1 us / 1e-12 relative")
+
 NOT_YET = {}
 
 
